@@ -619,6 +619,10 @@ def _tree(kind):
         ]
     if kind == "single":  # one file, copied into an existing directory (extract route of extract_tar_stream)
         return [("a.txt", False, _content(1500, 1))]
+    if isinstance(kind, tuple) and kind[0] == "param":  # name length / file size chosen by the solver
+        _, full_len, size = kind
+        name = "tree/" + "n" * (full_len - 5)
+        return [("tree", True, None), (name, False, _content(size, 6)), ("tree/z.txt", False, _content(10, 7))]
     raise ValueError(kind)
 
 
@@ -792,6 +796,32 @@ def prop_extract_complete(kind, fmt, driver, ci) -> bool:
     raw, tree, marks, payload_end = archive(kind, fmt)
     files, dirs = _want(kind, fmt, driver)
     fs, err = _extract(raw, len(raw), c, driver)
+    if err is not None:
+        return False
+    return _exact(fs, files, dirs)
+
+
+# full path lengths around every limit of the tar formats: ustar name (100) and prefix (155, 255/256),
+# GNU long-name block (511/512 incl. NUL) and pax record sizes (a 'NNN path=<name>\n' record of exactly 512)
+PARAM_LENS = [95, 99, 100, 101, 155, 156, 157, 254, 255, 256, 257] + list(range(495, 516))
+PARAM_SIZES = [0, 1, 511, 512, 513, 1024]
+PARAM_CHUNKS = [7, 512, 4096]
+
+
+def prop_extract_param(fmt, li, si, ci) -> bool:
+    """A complete archive written by CPython tarfile whose long member name has a solver-chosen
+    length (around every format limit) and whose file has a solver-chosen size (around the block
+    size) is extracted exactly, for small / block-sized / large transport chunks."""
+    full_len, size, c = _sel(PARAM_LENS, li), _sel(PARAM_SIZES, si), _sel(PARAM_CHUNKS, ci)
+    if full_len is None or size is None or c is None:
+        return True
+    kind = ("param", full_len, size)
+    try:
+        raw, tree, marks, payload_end = archive(kind, fmt)
+    except ValueError:
+        return True  # the format cannot represent this name (ustar): nothing to read
+    files, dirs = _want(kind, fmt, "ets_tree")
+    fs, err = _extract(raw, len(raw), c, "ets_tree")
     if err is not None:
         return False
     return _exact(fs, files, dirs)
@@ -1281,6 +1311,20 @@ def specs(tier: str):
         "size selector, buffer selector, source length, source kind",
         T_WRITE,
     )
+    # member-name lengths and file sizes around every format limit (solver-chosen)
+    for fmt in ("pax", "gnu") if quick else ("pax", "gnu", "ustar"):
+        out.append(
+            Spec(
+                name=f"L4_param_names_sizes_{fmt}",
+                group="L4 archives with name lengths / file sizes at the format limits are extracted exactly",
+                source=mk_source(IMPORTS, "li: int, si: int, ci: int", [f"0 <= li < {len(PARAM_LENS)}", f"0 <= si < {len(PARAM_SIZES) if not quick else 3}", f"0 <= ci < {len(PARAM_CHUNKS) if not quick else 2}"], f"prop_extract_param({fmt!r}, li, si + {0 if not quick else 2}, ci)"),
+                cond=900 if quick else 3000,
+                path=120,
+                bound=f"{fmt} archive written by CPython tarfile: tree/<name> with full path length from {PARAM_LENS} (symbolic index), file size from {PARAM_SIZES if not quick else PARAM_SIZES[2:5]}, transport chunk from {PARAM_CHUNKS if not quick else PARAM_CHUNKS[:2]}",
+                symbolic="name-length index, size index, chunk index",
+                targets=T_TAR,
+            )
+        )
     return out
 
 
